@@ -129,6 +129,7 @@ pub fn collect<'tcx>(tcx: TyCtxt<'tcx>, doc: &mut J) {
                 let mut im = J::obj();
                 im.put("self_ty", J::s(ty_s(self_ty)));
                 im.put("generic", J::Bool(has_params(self_ty)));
+                im.put("generic_bounds", crate::mirser::generic_bounds(tcx, did));
                 im.put("span", span_j(tcx, tcx.def_span(did)));
                 let sp = tcx.def_span(did);
                 im.put("derive", J::Bool(sp.in_derive_expansion()));
@@ -211,6 +212,7 @@ pub fn collect<'tcx>(tcx: TyCtxt<'tcx>, doc: &mut J) {
                 a.put("reachable", J::Bool(ev.is_reachable(ldid)));
                 a.put("span", span_j(tcx, tcx.def_span(did)));
                 a.put("has_drop", J::Bool(tcx.adt_destructor(did).is_some()));
+                a.put("generic_bounds", crate::mirser::generic_bounds(tcx, did));
                 if let Some(d) = tcx.adt_destructor(did) {
                     a.put("drop_key", J::s(body_key(tcx, d.did)));
                 }
